@@ -91,17 +91,23 @@ def coq_sources():
     return sorted(out)
 
 
-def build_coq():
-    """Full .vo build of the development (incremental through make), then the model driver."""
+def build_coq(pid=None):
+    """Full .vo build (incremental through make) of the model + extraction, then of the theorems
+    of property `pid` (everything when pid is None), then the model driver.
+    A failure of the model/extraction part is a machinery error; a failure of the property part
+    is a broken proof obligation and is returned as (False, log, dt)."""
     with Lock("coq"):
         t0 = time.time()
         mk = os.path.join(COQ, "Makefile")
         proj = os.path.join(COQ, "_CoqProject")
         if not os.path.exists(mk) or os.path.getmtime(mk) < os.path.getmtime(proj):
             sh(["coq_makefile", "-f", "_CoqProject", "-o", "Makefile"], cwd=COQ)
-        p = sh(["timeout", "3000", "make", "-j16"], cwd=COQ, timeout=3100, check=False)
+        p = sh(["timeout", "3000", "make", "-j16", "Extract/Extract.vo"], cwd=COQ, timeout=3100, check=False)
         if p.returncode != 0:
-            return False, p.stdout[-6000:], time.time() - t0
+            raise CheckError("the executable model does not build/extract:\n" + p.stdout[-6000:])
+        tgt = ["Properties/%s.vo" % pid] if pid else []
+        p = sh(["timeout", "3000", "make", "-j16"] + tgt, cwd=COQ, timeout=3100, check=False)
+        prop_ok, prop_log = p.returncode == 0, p.stdout[-6000:]
         # extracted files land in coq/ (cwd of coqc); move them next to the driver
         gen = os.path.join(OCAML, "gen")
         os.makedirs(gen, exist_ok=True)
@@ -122,7 +128,7 @@ def build_coq():
         if moved or not os.path.exists(drv) or not os.path.exists(stamp) or open(stamp).read() != h:
             sh(["timeout", "600", "./build.sh"], cwd=OCAML, timeout=700)
             open(stamp, "w").write(h)
-        return True, p.stdout[-2000:], time.time() - t0
+        return prop_ok, prop_log, time.time() - t0
 
 
 def forbidden_tokens():
